@@ -160,6 +160,26 @@ def run_case(case, rec):
                             d = diff(gs, ss_g.get('members') or [])
                             if d:
                                 rec.violation('export:members', f'export as {v}: members of {ss_w["id"]}: ' + fmt(d))
+            # a lexicon added *after* the database was already queried and exported (same process, same connection):
+            # its export must be just as faithful (lookup values that are new to the database, dependencies on
+            # lexicons installed earlier)
+            late_prof = doc.Profile(idstyle='prefixed', p_meta=0.5, ili='unique', p_opt=0.8)
+            late = doc.gen_lexicon(r, '1.3', 'late', '1', late_prof, requires=[(lexs[0]['id'], lexs[0]['version'])])
+            for i_, ss in enumerate(late.get('synsets', [])):
+                ss['lexfile'] = f'late.file{i_ % 2}-{case["seed"] % 7}'
+            late['requires'][0]['url'] = 'https://mirror.example.org/' + lexs[0]['id']
+            late_res = {'lmf_version': '1.3', 'lexicons': [late]}
+            wnio.add(wnio.write_resource(late_res, work, random.Random(case['seed'] + 9), name='late.xml'))
+            out = work / 'export-late.xml'
+            wn.export(wn.lexicons(lexicon='late:1'), out, version='1.3')
+            got_late = lmf.load(out, progress_handler=None)['lexicons'][0]
+            rec.event('export.late-addition')
+            d = diff(export_form(late), export_form(got_late))
+            if d:
+                rec.violation('export-late:' + norm_path(d[0]), 'export of a lexicon added after earlier queries/exports: ' + fmt(d),
+                              {'path': d[0], 'expected': jsonable(d[1]), 'actual': jsonable(d[2])})
+            if frame_links(late) != frame_links(got_late):
+                rec.violation('frame-links-lost', 'export of a late-added lexicon lost sense-frame links')
             # re-import each export into an empty database
             for v, out in exports.items():
                 with env.FreshDB() as db2:
